@@ -1,11 +1,11 @@
 CONSTANTS
   FlowSet = {"flows/a.yaml", "flows/b.yaml", "flows/c.yaml"}
   Endpoints = {"configuration", "apply_flows"}
-  Methods = {"PUT", "POST"}
-  MaxNth = 6
+  Methods = {"PUT"}
+  MaxNth = 4
   WithBadB64 = TRUE
-  GwOld = {"none", "g1"}
-  AnchorFlows = {}
+  GwOld = {"none"}
+  AnchorFlows = {"flows/a.yaml"}
   Paths <- PathsMC
   Cat <- CatMC
   Txns = {}
